@@ -59,11 +59,20 @@ def crop_and_resize_model(images, boxes, size, **kw):
 
 
 def crop_and_resize_geometry(images, boxes, size, **kw):
-    """geometry-only variant: record the boxes, return a zero crop of the requested size."""
+    """geometry-only variant: record the boxes, return a crop of the requested size whose (constant) content identifies the SOURCE image:
+    crop i is filled with the mean of image i when the images are concrete (zeros for symbolic pixels), so a crop cut from the wrong frame
+    differs even though the pixel geometry is not modelled."""
     import torch
     from . import torchfe as T
     CROP_LOG.append({"boxes": boxes, "size": (int(size[0]), int(size[1]))})
-    return torch.zeros((boxes.shape[0], images.shape[1], int(size[0]), int(size[1])), dtype=images.dtype)
+    shape = (images.shape[1], int(size[0]), int(size[1]))
+    n = boxes.shape[0]
+    if images.shape[0] == n and n > 0 and (not isinstance(images, T.SymTensor) or images.is_concrete()):
+        real = images.materialize() if isinstance(images, T.SymTensor) else images
+        means = [float(real[i].double().mean()) for i in range(n)]
+        dt = images.dtype
+        return torch.stack([torch.full(shape, (m if dt.is_floating_point else int(round(m))), dtype=dt) for m in means])
+    return torch.zeros((n,) + shape, dtype=images.dtype)
 
 
 # ------------------------------------------------------------------ symbolic Hungarian
